@@ -199,6 +199,50 @@ def targets():
             return r
         return [sub(t) for t in np.asarray(out).reshape(-1)]
 
+    def am2q(frame, gref, mref):
+        def fn(A, v):
+            a, m, _, _ = _sym_meas(v, gref, mref)
+            return O(A).am2q(a, m, frame=frame)
+        return fn
+
+    def acc2q(A, v):
+        a, _, _, _ = _sym_meas(v, UP, _ned)
+        return O(A).acc2q(a)
+
+    def saam_vec(A, v):
+        # the vectorised copy of the formula (N-sample constructor); second row: a concrete consistent sample
+        a, m, _, _ = _sym_meas(v, UP, _ned)
+        from pysym import symnp
+        acc = symnp.array([list(a), [0.0, 2.0, 0.0]])
+        mag = symnp.array([list(m), [0.0, 2.4, 1.8]])
+        return F(A).SAAM(acc, mag).Q[0]
+
+    def oleq_fixed(frame, gref, mref):
+        def fn(A, v):
+            # OLEQ draws its start from the global RNG: for the duration of the call the draw is replaced by q + 0.5 (the code
+            # subtracts 0.5), i.e. the iteration is started at the true attitude; later convergence tests are followed on their
+            # converged side only
+            from pysym import sym
+            a, m, g, mr = _sym_meas(v, gref, mref)
+            e = F(A).OLEQ(magnetic_ref=np.array([0.5, 0.0, 0.8660254037844386]), weights=np.array([1.0, 1.0]), frame=frame)
+            e.m_ref, e.a_ref = mr, g
+            rnd = A.filters.oleq.np.random
+            count = [0]
+            def pr(atom, value):
+                if _not_converged(atom, value):
+                    count[0] += 1
+                    return count[0] > 1          # the first test (against the arbitrary [1,0,0,0]) may say "not converged"
+                return False
+            rnd.__dict__['random'] = lambda n=None: v.vec(*Q) + 0.5
+            old = sym.CTX.prune
+            sym.CTX.prune = pr
+            try:
+                return e.estimate(a, m)
+            finally:
+                sym.CTX.prune = old
+                rnd.__dict__.pop('random', None)
+        return fn
+
     def davenport_K(A, v):
         a, m, _, mr = _sym_meas(v, UP, _ned)
         e = F(A).Davenport(magnetic_dip=60.0, gravity=1.0)
@@ -286,6 +330,12 @@ def targets():
         mk('quest', quest, "QUEST.estimate; Newton loop traced on its converged side only", prune=_not_converged),
         mk('quest_newton1', quest_newton1, "QUEST: (phi, phi_prime) of the first Newton step from l = sum(weights) = 1", prune=_not_converged),
         mk('quest_at_root', quest_at_root, "QUEST: closed-form quaternion of the code with the Newton result replaced by 1", prune=_not_converged),
+        mk('triad_q', triad(_ned, 'quaternion'), "TRIAD ... estimate(representation='quaternion') (through chiaverini)"),
+        mk('ecompass_NED_q', ecompass('NED', _ned, 'quaternion'), "ecompass(..., 'NED', 'quaternion') (through chiaverini)"),
+        mk('acc2q', acc2q, "acc2q(sa R^T (0,0,1))"),
+        mk('saam_vec', saam_vec, "SAAM(acc, mag).Q[0] for a 2-row input: the vectorised copy of the closed form"),
+        mk('oleq_fixed_NED', oleq_fixed('NED', DOWN, _oleq_ned), "OLEQ('NED').estimate started at the true attitude"),
+        mk('oleq_fixed_ENU', oleq_fixed('ENU', UP, _enu), "OLEQ('ENU').estimate started at the true attitude"),
         mk('davenport_K', davenport_K, "the matrix Davenport.estimate hands to np.linalg.eig"),
         mk('flae_W', flae_W, "the matrix FLAE.estimate(method='eig') hands to np.linalg.eig"),
         mk('flae_newton_N', flae_newton_N, "the matrix FLAE.estimate(method='newton') hands to np.linalg.inv", prune=_not_converged),
@@ -299,14 +349,17 @@ STAGES = [['C04_tac.v'],
           ['C04_matrix.v', 'C04_eigen.v', 'C04_closed.v', 'C04_decl.v', 'C04_tilt.v',
            ('C04_refuted_flae.v', {'finding': 'flae_newton/identity-fallback'})],
           ['C04.v']]
-STAGES_THOROUGH = [['C04_quest.v'], ['C04_quest_cf.v'], ['C04_thorough.v']]
+STAGES_THOROUGH = [['C04_quest.v', 'C04_oleq.v'], ['C04_quest_cf.v'], ['C04_thorough.v']]
 COQ_TIMEOUT = 600
 
-LEVEL_TEXT = ("Coq theorems over the regenerated estimators run on symbolic consistent data: TRIAD (estimate, constructor, both "
-              "reference styles), ecompass and am2DCM (both frames) are exact for every unit quaternion, every dip in (-90,90) deg and "
-              "all positive scalings; Davenport's K and FLAE's W (captured at the LAPACK call) are symmetric with the true quaternion as "
-              "eigenvector for sa+sm resp. 1; SAAM is exact in general position. The remaining estimators and modes are covered by the "
-              "correspondence of their regenerated models and by the search oracle; FLAE symbolic/newton and OLEQ are recorded known findings")
+LEVEL_TEXT = ("Coq theorems over the regenerated estimators run on symbolic consistent data (acc = sa*M*g, mag = sm*M*m, all sa, sm > 0, every dip "
+              "in (-90,90) deg): TRIAD (estimate, constructor, both reference styles, with a declination, re-used object), ecompass and am2DCM "
+              "(both frames) and Tilt are exact for EVERY unit quaternion; OLEQ's iteration has the true attitude as fixed point (both frames, every "
+              "unit q); Davenport's K and FLAE's W (captured at the LAPACK call, also with a declination) are symmetric with the true quaternion as "
+              "eigenvector for sa+sm resp. 1; FLAE's quartic has the root 1; SAAM (scalar and vectorised copy) is exact in general position; QUEST: "
+              "1 is a root of the code's quartic and the closed form at that root is +-q under the explicit premise det S <> 0. AQUA, FAMC, FQA and the "
+              "quaternion outputs through chiaverini/dcm2quat/acc2q rest on their regenerated models, the correspondence and the search oracle; "
+              "FLAE symbolic/newton, OLEQ's capped iteration and Davenport's unnormalised weighting are recorded known findings")
 TECHNIQUE = "pysym regeneration of the public estimate() entry points on symbolic images of the references + Coq (ring/field modulo unit norms, sqrt lemmas) + numeric search oracle"
 RULE = ("attitudes: the named singular poses (level at 8 headings, inverted, each body axis vertical, half-turns about axis-aligned and "
         "oblique axes, identity) for the singularity-free class, uniform draws on S^3 filtered by the property's general-position guard "
@@ -317,10 +370,12 @@ TRUSTED = ["Coq 8.16.1 kernel; vm_compute for the float copies",
            "pysym tracing translator incl. the capture of the argument of np.linalg.eig/eigh/inv and the pruning of the not-converged side of QUEST/FLAE Newton loops",
            "stdlib real-number axioms", "real arithmetic stands for binary64 (measured by correspondence and search)",
            "LAPACK eigh and the selection of its top eigenvector: contract `eig_sym` (Section hypothesis)"]
-PARTIAL = ("proved: TRIAD/ecompass/am2DCM exact on all of SO(3); Davenport K and FLAE W eigen-equations; SAAM exact in general position. "
-           "Not proved (regenerated model + correspondence + search only): Tilt, AQUA, FAMC, FQA, QUEST, quaternion outputs through "
-           "chiaverini/dcm2quat, acc2q; maximality/simplicity of the Davenport/FLAE eigenvalue is a premise; FLAE symbolic/newton and OLEQ "
-           "are inexact in the pinned tree (known findings)")
+PARTIAL = ("proved: TRIAD/ecompass/am2DCM/Tilt exact on all of SO(3); OLEQ fixed point; Davenport K and FLAE W eigen-equations (incl. declination); "
+           "FLAE quartic root; SAAM scalar + vectorised exact in general position; QUEST root and closed form at the root under det S <> 0 (about "
+           "derived targets, the Newton chain itself is argued on paper and measured). Not proved (regenerated model + correspondence + search only): "
+           "AQUA, FAMC, FQA, quaternion outputs through chiaverini/dcm2quat (triad/ecompass 'quaternion', am2q), acc2q, Tilt rotmat/angles and its "
+           "vectorised constructor; maximality/simplicity of the Davenport/FLAE eigenvalue is a premise; convergence of OLEQ/QUEST/FLAE iterations from a "
+           "non-root start; FLAE symbolic/newton, OLEQ cap and Davenport ill-scaling are known findings")
 
 
 # ------------------------------------------------------------------------------------------
@@ -725,7 +780,90 @@ def o_default_refs(inp):
     return None
 
 
-ORACLES = {'default_refs': o_default_refs, 'estimate': o_estimate, 'acc2q': o_acc2q, 'triad_dip': o_triad_dip, 'oleq_fixed': o_oleq_fixed, 'reuse': o_reuse}
+# ---- reference-shaping keywords: what the object REPORTS after construction against what was REQUESTED -----------------
+_REF_KEYWORDS = ('magnetic_dip', 'magnetic_ref', 'mag_ref', 'v1', 'v2', 'frame', 'weights', 'gravity')
+
+
+def ref_keywords():
+    """class name -> reference-shaping keywords it accepts (from inspect.signature and the `kw.get('...')` reads of __init__)"""
+    import ahrs, inspect, re
+    out = {}
+    for name in ('TRIAD', 'Davenport', 'QUEST', 'FLAE', 'OLEQ', 'FQA', 'SAAM', 'FAMC', 'Tilt', 'AQUA'):
+        cls = getattr(ahrs.filters, name)
+        found = set(inspect.signature(cls.__init__).parameters)
+        try:
+            found |= set(re.findall(r"kw(?:args)?\.get\(\s*['\"](\w+)['\"]", inspect.getsource(cls.__init__)))
+        except (OSError, TypeError):
+            pass
+        out[name] = sorted(k for k in found if k in _REF_KEYWORDS)
+    return out
+
+
+def _dirs(dip, frame_style):
+    cd, sd = math.cos(math.radians(float(dip))), math.sin(math.radians(float(dip)))
+    return {'ned': [cd, 0.0, sd], 'ned_neg': [cd, 0.0, -sd], 'enu': [0.0, cd, -sd], 'oleq_ned': [sd, 0.0, cd]}[frame_style]
+
+
+def o_refkw(inp):
+    """construct with ONE reference-shaping keyword set to `value` (falsy-but-valid 0, 0.0, -0.0 included) and compare the
+    reference the object reports with the requested one.  inp: cls, kw, value, frame"""
+    import ahrs
+    Fl = ahrs.filters
+    cls, kw, val, fr = inp['cls'], inp['kw'], inp['value'], inp.get('frame', 'NED')
+    unit = lambda t: _f(t) / np.linalg.norm(_f(t))
+    with warnings.catch_warnings():
+        warnings.simplefilter('ignore')
+        if kw in ('magnetic_dip', 'magnetic_ref', 'v2') and not isinstance(val, list):
+            if cls == 'Davenport':
+                got, exp = Fl.Davenport(magnetic_dip=val).m_q, _dirs(val, 'ned')
+            elif cls == 'QUEST':
+                got, exp = Fl.QUEST(magnetic_dip=val).m_q, _dirs(val, 'ned')
+            elif cls == 'FLAE':
+                got, exp = Fl.FLAE(magnetic_dip=val).ref[1], _dirs(val, 'ned_neg')
+            elif cls == 'OLEQ':
+                got, exp = Fl.OLEQ(magnetic_ref=val, frame=fr).m_ref, _dirs(val, 'oleq_ned' if fr == 'NED' else 'enu')
+            elif cls == 'TRIAD':
+                got, exp = Fl.TRIAD(v2=float(val), frame=fr).v2, _dirs(val, 'ned' if fr == 'NED' else 'enu')
+            else:
+                return None
+        elif kw in ('magnetic_dip', 'magnetic_ref', 'mag_ref', 'v2', 'v1'):          # vector-valued reference
+            o = {'QUEST': lambda: Fl.QUEST(magnetic_dip=list(val)).m_q, 'OLEQ': lambda: Fl.OLEQ(magnetic_ref=_f(val), frame=fr).m_ref,
+                 'FQA': lambda: Fl.FQA(mag_ref=_f(val)).m_ref, 'TRIAD': lambda: getattr(Fl.TRIAD(**{kw: _f(val)}), kw)}.get(cls)
+            if o is None:
+                return None
+            got, exp = o(), val
+        elif kw == 'gravity':
+            got, exp = Fl.Davenport(gravity=val).g_q, [0.0, 0.0, 1.0]
+            if abs(np.linalg.norm(got) - float(val)) > 1e-12 * max(1.0, abs(float(val))):
+                return {'tag': f'{cls}/gravity-magnitude-differs', 'observed': got, 'expected': val}
+        elif kw == 'weights':
+            o = {'Davenport': lambda: Fl.Davenport(weights=_f(val)).w, 'QUEST': lambda: Fl.QUEST(weights=_f(val)).w,
+                 'FLAE': lambda: Fl.FLAE(weights=_f(val)).a * np.sum(val), 'OLEQ': lambda: Fl.OLEQ(weights=_f(val)).a}[cls]
+            got = _f(o())
+            if got.shape != (2,) or np.max(np.abs(got - _f(val))) > 1e-12:
+                return {'tag': f'{cls}/weights-differ', 'observed': got, 'expected': val}
+            return None
+        elif kw == 'frame' and cls == 'AQUA':
+            # AQUA's algebraic estimate does not depend on `frame`: the keyword must not change it
+            e = impl()['aqua']
+            a, m, g, mr, exp = _measure([0.5, -0.3, 0.4, math.sqrt(1 - 0.5)], 40.0, 2.0, 30.0, e)
+            Rr = _as_rot(Fl.AQUA(frame=val).estimate(a, m), 'q')
+            if isinstance(Rr, str) or not _angle(Rr, exp) <= TOL:
+                return {'tag': f'AQUA/frame-changes-estimate', 'observed': Rr, 'expected': exp}
+            return None
+        elif kw == 'frame':
+            o = {'TRIAD': lambda: Fl.TRIAD(frame=val).v1, 'OLEQ': lambda: Fl.OLEQ(frame=val).a_ref}[cls]
+            got = o()
+            exp = {('TRIAD', 'NED'): UP, ('TRIAD', 'ENU'): DOWN, ('OLEQ', 'NED'): DOWN, ('OLEQ', 'ENU'): UP}[(cls, val)]
+        else:
+            return None
+    got = _f(got)
+    if got.shape != (3,) or not np.all(np.isfinite(got)) or np.linalg.norm(got) == 0 or np.max(np.abs(unit(got) - unit(exp))) > 1e-12:
+        return {'tag': f'{cls}/{kw}-reference-differs', 'observed': got, 'expected': unit(exp)}
+    return None
+
+
+ORACLES = {'refkw': o_refkw, 'default_refs': o_default_refs, 'estimate': o_estimate, 'acc2q': o_acc2q, 'triad_dip': o_triad_dip, 'oleq_fixed': o_oleq_fixed, 'reuse': o_reuse}
 
 
 def _call(f, inp, name):
@@ -799,8 +937,10 @@ def search(ctx, scale):
                 continue
             if n == 1 and est in ('flae_eig', 'flae_newton'):
                 continue            # one-sample FLAE(acc, mag, method=...) ignores `method`: owned by property C07
-            inp = dict(est=est, q=q.tolist(), form='ctor1' if n == 1 else 'ctorN', n=n, row=int(rng.integers(0, n)), **draw())
-            ctx.check('estimate', inp, _call(o_estimate, inp, est), nontrivial_key=k(est, inp['form'] + str(n), q))
+            # first and last row always (pre-allocation / off-by-one patterns), plus a random one
+            for row in sorted({0, n - 1, int(rng.integers(0, n))}):
+                inp = dict(est=est, q=q.tolist(), form='ctor1' if n == 1 else 'ctorN', n=n, row=row, **draw())
+                ctx.check('estimate', inp, _call(o_estimate, inp, est), nontrivial_key=k(est, inp['form'] + str(n) + '/' + str(row), q))
     # 5. acc2q and TRIAD with a float dip
     for i in range(10 * scale):
         q = cm.rand_unit_quat(rng) if i % 2 else _f(singular_poses()[i % len(singular_poses())][1])
@@ -822,6 +962,40 @@ def search(ctx, scale):
                 for cls in _default_table():
                     inp = dict(cls=cls, q=q.tolist(), sa=sa, sm=sm)
                     ctx.check('default_refs', inp, _call(o_default_refs, inp, cls), nontrivial_key=(cls, 'default', sa, sm, i))
+    # 9. nearly-unit magnitudes: a sample within 1e-5 of norm 1 that is not exactly normalised (accelerometer in g reading 1.000008)
+    NEAR = [1.0] + [1.0 + sg * d for d in (1e-8, 1e-7, 1e-6, 5e-6, 9e-6) for sg in (1, -1)]
+    for i in range(1 * scale):
+        q = _gp_quat(rng)
+        for j, s1 in enumerate(NEAR):
+            s2 = NEAR[(3 * j + 1 + i) % len(NEAR)]
+            for (sa, sm) in ((s1, s2), (s1, 1.0), (1.0, s1)):
+                for dip in (80.0, -75.0, 20.0):
+                    for est in names:
+                        inp = dict(est=est, q=q.tolist(), form='estimate', **{**draw(), 'sa': sa, 'sm': sm, 'dip': dip})
+                        ctx.check('estimate', inp, _call(o_estimate, inp, est), nontrivial_key=(est, 'near-unit', sa, sm, dip, i))
+    # 10. reference-shaping keywords, falsy-but-valid and boundary values included: reported vs requested reference, and exactness
+    #     on data consistent with the REQUESTED reference (dip 0 => horizontal field)
+    DIPS = [0, 0.0, -0.0, 1e-9, -1e-9, 30, -30.0, 45, 80.0, -80.0, 89.0, -89.0]
+    VECS = [[1.0, 0.0, 0.0], [0.5, 0.5, 0.7], [0.0, 1.0, -1.0], [20000.0, -1500.0, 44000.0], [0.0, 0.0, 1.0e-3 + 1.0]]
+    for cls, kws in ref_keywords().items():
+        for kw in kws:
+            vals = {'magnetic_dip': DIPS + (VECS if cls == 'QUEST' else []), 'magnetic_ref': DIPS + VECS, 'mag_ref': VECS[:4],
+                    'v2': DIPS + VECS[:4], 'v1': [[0.0, 0.0, 1.0], [0.0, 0.0, -2.0], [0.1, 0.2, 3.0]], 'frame': ['NED', 'ENU'],
+                    'weights': [[1.0, 1.0], [0.3, 0.7], [2.0, 0.5]], 'gravity': [1.0, 9.81, 0.5, 1]}[kw]
+            for val in vals:
+                for fr in (('NED', 'ENU') if cls in ('OLEQ', 'TRIAD') and kw != 'frame' else ('NED',)):
+                    inp = dict(cls=cls, kw=kw, value=val, frame=fr)
+                    ctx.check('refkw', inp, _call(o_refkw, inp, cls), nontrivial_key=('refkw', cls, kw, repr(val), fr))
+    for i in range(2 * scale):
+        q = _gp_quat(rng)
+        for dip in (0, 0.0, -0.0, 1e-9, 80.0, -80.0):
+            for est in names:
+                inp = dict(est=est, q=q.tolist(), form='estimate' if i % 2 == 0 or impl()[est]['many'] is None else 'ctorN', n=3, row=0,
+                           **{**draw(), 'dip': dip, 'decl': 0.0})
+                ctx.check('estimate', inp, _call(o_estimate, inp, est), nontrivial_key=(est, 'dip-edge', repr(dip), i))
+            for fr in ('NED', 'ENU'):
+                inp = dict(q=q.tolist(), frame=fr, **{**draw(), 'dip': float(dip)})
+                ctx.check('triad_dip', inp, _call(o_triad_dip, inp, f'triad_dip_{fr}'), nontrivial_key=('triad_dip-edge', fr, repr(dip), i))
     # 7. object re-use after re-assigning references / weights (declinations, other plane, other weights)
     for i in range(6 * scale):
         q0, q = _gp_quat(rng), _gp_quat(rng)
@@ -892,6 +1066,7 @@ def correspondence(ctx):
         ctx.correspond(f'C04_{tname}', cases, (lambda c, name=name: _run_impl(name, c)), tol_ulp=64, abs_tol=2e-9, up_to_sign=quat)
     # TRIAD through the constructor
     import ahrs
+    from ahrs.common import orientation as O_
     ctx.correspond('C04_triad_ctor', _cases(ctx, n, 'free'),
                    lambda c: (lambda a, m, g, mr: ahrs.filters.TRIAD(a, m, v1=g, v2=mr).A)(*_meas_c(c, 'triad_NED')), tol_ulp=64, abs_tol=2e-9)
     # references with a declination; re-used TRIAD object
@@ -915,6 +1090,26 @@ def correspondence(ctx):
                        lambda c: (lambda a, m, g, mr: ahrs.filters.FQA(mag_ref=mr).estimate(a, np.array(m)))(*_meas_c(c, 'fqa', True)),
                        tol_ulp=64, abs_tol=2e-9, up_to_sign=True)
         ctx.correspond('C04_quest_at_root', _cases(ctx, n, 'closed'), (lambda c: _run_impl('quest', c)), tol_ulp=64, abs_tol=2e-9, up_to_sign=True)
+        ctx.correspond('C04_triad_q', _cases(ctx, n, 'closed'), (lambda c: _run_impl('triad_NED_q', c)), tol_ulp=64, abs_tol=2e-9, up_to_sign=True)
+        ctx.correspond('C04_ecompass_NED_q', _cases(ctx, n, 'closed'), (lambda c: _run_impl('ecompass_NED_q', c)), tol_ulp=64, abs_tol=2e-9, up_to_sign=True)
+        ctx.correspond('C04_acc2q', _cases(ctx, n, 'free'), (lambda c: O_.acc2q(_meas_c(c, 'tilt')[0])), tol_ulp=64, abs_tol=2e-9, up_to_sign=True)
+        ctx.correspond('C04_saam_vec', _cases(ctx, n, 'closed'),
+                       (lambda c: (lambda a, m, g, mr: ahrs.filters.SAAM(np.array([a, [0.0, 2.0, 0.0]]), np.array([m, [0.0, 2.4, 1.8]])).Q[0])(*_meas_c(c, 'saam'))),
+                       tol_ulp=64, abs_tol=2e-9, up_to_sign=True)
+        def oleq_fx(fr):
+            def f(c):
+                a, m, g, mr = _meas_c(c, f'oleq_{fr}')
+                e = ahrs.filters.OLEQ(magnetic_ref=np.array([0.5, 0.0, 0.8660254037844386]), weights=np.array([1.0, 1.0]), frame=fr)
+                e.m_ref, e.a_ref = mr, g
+                rnd = np.random.random
+                np.random.random = lambda n=None: _f([c[k] for k in Q]) + 0.5
+                try:
+                    return e.estimate(a, m)
+                finally:
+                    np.random.random = rnd
+            return f
+        ctx.correspond('C04_oleq_fixed_NED', _cases(ctx, n, 'free'), oleq_fx('NED'), tol_ulp=64, abs_tol=2e-9)
+        ctx.correspond('C04_oleq_fixed_ENU', _cases(ctx, n, 'free'), oleq_fx('ENU'), tol_ulp=64, abs_tol=2e-9)
         ctx.correspond('C04_quest_decl', _cases(ctx, n, 'closed'), q_decl, tol_ulp=64, abs_tol=2e-9, up_to_sign=True)
     # captured LAPACK inputs: the top eigenvector of the model's matrix (evaluated inside Coq) is what the public call returns
     from vlib import core
